@@ -28,6 +28,13 @@ import (
 	"github.com/tsawler/tabula"
 	"github.com/tsawler/tabula/contentstream"
 	"github.com/tsawler/tabula/core"
+	"github.com/tsawler/tabula/docx"
+	"github.com/tsawler/tabula/epubdoc"
+	"github.com/tsawler/tabula/htmldoc"
+	"github.com/tsawler/tabula/odt"
+	"github.com/tsawler/tabula/pptx"
+	"github.com/tsawler/tabula/reader"
+	"github.com/tsawler/tabula/xlsx"
 	"github.com/tsawler/tabula/font"
 	"github.com/tsawler/tabula/format"
 	"github.com/tsawler/tabula/rag"
@@ -111,6 +118,146 @@ var (
 	}
 	docEntries = []entry{eText, eMarkdown, eMDOpts, eChunks, eChunksCfg, eDocument, ePageCount, eTextHF, eTextJoin, eTextPage1}
 )
+
+// apiEntry drives the public API of the format's own reader package directly (one Open, every
+// exported accessor), the part of the public surface that tabula.Extractor does not reach.
+var apiEntry = entry{name: "reader.API", run: func(c *caseCtx) error {
+	switch filepath.Ext(c.path) {
+	case ".pdf":
+		r, err := reader.Open(c.path)
+		if err != nil {
+			return err
+		}
+		defer r.Close()
+		r.Version()
+		r.NumObjects()
+		r.FileSize()
+		r.GetInfo()
+		r.GetCatalog()
+		var nums []int
+		for n := range r.XRefTable().Entries {
+			nums = append(nums, n)
+		}
+		sort.Ints(nums)
+		for i, n := range nums {
+			if i >= 64 {
+				break
+			}
+			r.GetObject(n)
+		}
+		n, _ := r.PageCount()
+		for i := 0; i < n && i < 8; i++ {
+			p, err := r.GetPage(i)
+			if err != nil {
+				break
+			}
+			p.MediaBox()
+			p.CropBox()
+			p.Rotate()
+			p.Resources()
+			p.Contents()
+			p.Width()
+			p.Height()
+			r.ExtractText(p)
+			r.ExtractPageImages(p)
+		}
+		_, err = r.ResolveDeep(r.Trailer())
+		r.ClearCache()
+		_, _, err2 := tabula.FromReader(r).Text()
+		return firstErr(err, err2)
+	case ".docx":
+		r, err := docx.Open(c.path)
+		if err != nil {
+			return err
+		}
+		defer r.Close()
+		_, err = r.Markdown()
+		r.Metadata()
+		r.Tables()
+		r.ModelTables()
+		r.HasHeaders()
+		r.HasFooters()
+		r.HeaderTexts()
+		r.FooterTexts()
+		r.Lists()
+		r.ModelLists()
+		_, err2 := r.TextWithOptions(docx.ExtractOptions{ExcludeHeaders: true, ExcludeFooters: true})
+		return firstErr(err, err2)
+	case ".odt":
+		r, err := odt.Open(c.path)
+		if err != nil {
+			return err
+		}
+		defer r.Close()
+		_, err = r.Markdown()
+		r.Metadata()
+		r.Tables()
+		r.ModelTables()
+		r.Lists()
+		r.HasHeaders()
+		r.HasFooters()
+		r.HeaderTexts()
+		r.FooterTexts()
+		_, err2 := r.TextWithOptions(odt.ExtractOptions{ExcludeHeaders: true, ExcludeFooters: true})
+		return firstErr(err, err2)
+	case ".xlsx":
+		r, err := xlsx.Open(c.path)
+		if err != nil {
+			return err
+		}
+		defer r.Close()
+		for i := -1; i <= r.SheetCount(); i++ {
+			r.Sheet(i)
+		}
+		for _, n := range r.SheetNames() {
+			r.SheetByName(n)
+		}
+		r.Metadata()
+		r.Tables()
+		_, err = r.Markdown()
+		return err
+	case ".pptx":
+		r, err := pptx.Open(c.path)
+		if err != nil {
+			return err
+		}
+		defer r.Close()
+		for i := -1; i <= r.SlideCount(); i++ {
+			r.Slide(i)
+		}
+		r.Metadata()
+		_, err = r.Markdown()
+		return err
+	case ".epub":
+		r, err := epubdoc.Open(c.path)
+		if err != nil {
+			return err
+		}
+		defer r.Close()
+		r.TableOfContents()
+		r.Metadata()
+		r.ChapterCount()
+		r.Chapters()
+		_, err = r.Markdown()
+		if r2, err2 := epubdoc.OpenReader(bytes.NewReader(c.data), int64(len(c.data))); err2 == nil {
+			r2.TableOfContents()
+			r2.Text()
+			r2.Close()
+		}
+		return err
+	case ".html":
+		r, err := htmldoc.Open(c.path)
+		if err != nil {
+			return err
+		}
+		defer r.Close()
+		r.Metadata()
+		_, err = r.Markdown()
+		_, err2 := r.DocumentWithOptions(htmldoc.ExtractOptions{ExcludeHeaders: true, ExcludeFooters: true})
+		return firstErr(err, err2)
+	}
+	return nil
+}}
 
 func firstErr(errs ...error) error {
 	for _, e := range errs {
@@ -222,6 +369,7 @@ type runner struct {
 	maxTicks int64
 	maxDepth int
 	stop     bool
+	phase    int
 }
 
 const allocMax = 64 << 20
@@ -589,7 +737,7 @@ func (r *runner) entriesFor(bi *baseInfo, eds []edit, level string) []entry {
 		out = append(out, rawXRef)
 	}
 	if level == "full" {
-		out = append(out, rawDetect)
+		out = append(out, rawDetect, apiEntry)
 	}
 	return out
 }
@@ -703,12 +851,24 @@ func (r *runner) measure(bis []*baseInfo) {
 		}
 		for _, ent := range ents {
 			ent := ent
+			ok := false
 			func() {
 				defer func() { recover() }()
 				verifrt.ResetBudgets()
-				verifrt.TickBudget, verifrt.DepthMax, verifrt.AllocMax = 1<<62, 1<<30, 1<<62
-				ent.run(&d.ctx)
+				// finite even here: an entry point that does not terminate on a VALID base (found:
+				// Reader.ResolveDeep on any page tree) must not kill the worker during calibration;
+				// it is reported as an ordinary case by enumerate()
+				verifrt.TickBudget, verifrt.DepthMax, verifrt.AllocMax = 50_000_000, 10_000, 1<<30
+				err := ent.run(&d.ctx)
+				ok = true
+				if err != nil && ent.name == "Text" {
+					fmt.Fprintf(os.Stderr, "base %s is not a valid document: Text() = %v\n", bi.b.name, err)
+					os.Exit(2)
+				}
 			}()
+			if !ok {
+				continue
+			}
 			if verifrt.Ticks > maxT {
 				maxT = verifrt.Ticks
 			}
@@ -749,6 +909,7 @@ func run(e *harness.Env) {
 		"a step counts one function entry or loop iteration inside tabula; loops inside the standard library are covered only by the 300 s per-case backstop and the 6 GiB address-space limit",
 		"internal/gen writers emit valid base documents (every base extracts without error before faults are applied)",
 	}
+	t0 := time.Now()
 	dir := harness.Scratch()
 	defer os.RemoveAll(dir)
 	if pf := os.Getenv("C02_PROF"); pf != "" { // development aid
@@ -777,15 +938,22 @@ func run(e *harness.Env) {
 		}
 		os.Exit(0)
 	}
-	if e.Thorough() {
-		e.SetBudget(13 * time.Minute)
+	only := os.Getenv("C02_BASE") // development aid: restrict to some bases
+	sel := func(bi *baseInfo) bool {
+		return only == "" || strings.Contains(","+only+",", ","+bi.b.name+",")
 	}
-	only := os.Getenv("C02_BASE")
 	for _, bi := range bis {
-		if only != "" && !strings.Contains(","+only+",", ","+bi.b.name+",") {
-			continue
+		if sel(bi) {
+			r.enumerate(bi, 1)
 		}
-		r.enumerate(bi)
+	}
+	if e.Thorough() {
+		e.SetBudget(11*time.Minute - time.Since(t0))
+		for _, bi := range bis {
+			if sel(bi) {
+				r.enumerate(bi, 2)
+			}
+		}
 	}
 	pprof.StopCPUProfile()
 	e.Max("case_ticks_max", r.maxTicks)
